@@ -158,11 +158,12 @@ def body_for(desc, ctx):
             ctx.done_flag = True
         elif kind == "timeout":
             src = SimFuture()
-            p = f_proxy(src, timeout=2.0)
+            tmo = [2.0, 0, 0.0, 0.5, 1, 3.0][desc.get("idx", 0) % 6]     # includes the falsy time-outs 0 and 0.0
+            p = f_proxy(src, timeout=tmo)
             t0 = s.now
             got = canon(lambda: len(p))
-            if got != ("exc", "TimeoutError") or abs((s.now - t0) - 2.0) > 1e-3:
-                ctx.hits.append(hit("C17/timeout-not-honoured", "len(proxy) with timeout=2 on a pending future gave %r after %r s" % (got, s.now - t0)))
+            if got != ("exc", "TimeoutError") or abs((s.now - t0) - float(tmo)) > 1e-3:
+                ctx.hits.append(hit("C17/timeout-not-honoured", "len(proxy) with timeout=%r on a pending future gave %r after %r s" % (tmo, got, s.now - t0)))
             ctx.done_flag = True
         elif kind == "failed":
             src = SimFuture()
